@@ -640,20 +640,34 @@ impl Property for C19 {
                 if let Op::Fetch(c) = o {
                     if rng.chance(2, 3) {
                         // (by-fetch prefill stores every second class: odd ones sit between two stored values)
-                        let span = if prefill_by_fetch { 2 * 64.min(prefill as u64) } else { 64.min(prefill as u64) };
-                        *c = PREFILL_CLASS + rng.below(span) as u32;
+                        let step = if prefill_by_fetch { 2 } else { 1 };
+                        let n = prefill as u64;
+                        // early values, the newest ones, or anywhere in between (block / window boundaries of a scan)
+                        let k = match rng.below(3) {
+                            0 => rng.below(64.min(n)),
+                            1 => n - 1 - rng.below(64.min(n)),
+                            _ => rng.below(n),
+                        };
+                        *c = PREFILL_CLASS + (step * k + if prefill_by_fetch { rng.below(2) } else { 0 }) as u32;
                     }
                 }
             }
         }
         let kind = rng.below(8);
         let huge_elem = if !zst && prefill == 0 && rng.chance(1, 1500) {
-            if rng.chance(1, 12) { 2 } else { 1 }
+            match rng.below(12) {
+                0 => 2,
+                1 => 3,
+                _ => 1,
+            }
         } else {
             0
         };
         if huge_elem == 2 {
             ops.truncate(8);
+        }
+        if huge_elem == 3 {
+            ops.truncate(4);
         }
         let ctor = if rng.chance(1, 3) { rng.range(1, 2) as u8 } else { 0 };
         // (a prefill through fetch_or_append costs n^2 / 2 comparisons: only up to 9000 values)
@@ -671,6 +685,21 @@ impl Property for C19 {
         let r = if t.huge_elem == 1 {
             cov.hit("reached.element_larger_than_64KiB");
             run_history::<Huge<65_592>>(t, cov)
+        } else if t.huge_elem == 3 {
+            // more than 4 MiB per element: on a thread with a stack that can hold a few of them
+            cov.hit("reached.element_larger_than_4MiB");
+            let mode = t.ne_mode;
+            std::thread::scope(|sc| {
+                std::thread::Builder::new()
+                    .stack_size(256 << 20)
+                    .spawn_scoped(sc, || {
+                        NE_MODE.with(|m| m.set(mode));
+                        run_history::<Huge<4_194_312>>(t, cov)
+                    })
+                    .expect("spawn")
+                    .join()
+                    .expect("history thread")
+            })
         } else if t.huge_elem >= 2 {
             cov.hit("reached.element_larger_than_1MiB");
             run_history::<Huge<1_048_592>>(t, cov)
@@ -706,9 +735,9 @@ impl Property for C19 {
             c.huge_elem = 0;
             out.push(c);
         }
-        if t.huge_elem == 2 {
+        if t.huge_elem >= 2 {
             let mut c = t.clone();
-            c.huge_elem = 1;
+            c.huge_elem = t.huge_elem - 1;
             out.push(c);
         }
         if t.ne_mode != 0 {
@@ -769,7 +798,7 @@ impl Property for C19 {
         Meta {
             level: "exploration",
             rule: "each run is a seeded history of 1-40 append/fetch_or_append/lookup operations on one Storage under one equality relation (by-class, NaN-like, non-transitive) with an optional unwinding comparison; the abstract trace is the sequence of (operation, outcome: appended/found/unwound); a run is non-trivial if it appended >= 3 values or its unwind fault fired; distinct = distinct abstract traces among non-trivial runs",
-            lanes: "element types: struct, two-variant enum, zero-sized, 136-byte, 65 600-byte (1/1500 runs), 1 MiB+ (1/18000 runs); irreflexive relation; `ne` inconsistent with `eq`; storages built by new(), default() or left behind by mem::take; storages pre-filled (by append or by fetch_or_append) with 60..300 (1/60 runs), 3e3..9e3 (1/400 runs) and 2^16..1.1e6 (1/40000 runs) values",
+            lanes: "element types: struct, two-variant enum, zero-sized, 136-byte, 65 600-byte (1/1500 runs), 1 MiB+ and 4 MiB+ (1/18000 runs each); irreflexive relation; `ne` inconsistent with `eq`; storages built by new(), default() or left behind by mem::take; storages pre-filled (by append or by fetch_or_append) with 60..300 (1/60 runs), 3e3..9e3 (1/400 runs) and 2^16..1.1e6 (1/40000 runs) values",
             triple_measure: "(relation, operation, outcome)",
             item_measure: "n/a",
             assumptions: &[
